@@ -8,6 +8,7 @@ import (
 	"encoding/hex"
 	"errors"
 	"fmt"
+	"github.com/attestantio/dirk/util/verifhook"
 	"os"
 	"sort"
 	"strconv"
@@ -715,15 +716,23 @@ func dkgEngine(workdir string) {
 			in := c.insts[u64(f[1])]
 			c.fault = nil
 			c.log = nil
-			if f[6] != "-" {
+			if f[6] == "nopass" {
+				c.fault = &dkgFault{kind: "nopass"}
+			} else if f[6] != "-" {
 				p := strings.Split(f[6], ":")
 				c.fault = &dkgFault{kind: p[0], msg: p[1], from: u64(p[2]), to: u64(p[3])}
 				if len(p) > 4 {
 					c.fault.arg = p[4]
 				}
 			}
+			genPass := []byte("pass")
+			if c.fault != nil && c.fault.kind == "nopass" {
+				// the client leaves the passphrase out and relies on the instances' generation passphrase
+				genPass = nil
+				c.fault = nil
+			}
 			pub, parts, err := in.process.OnGenerate(context.Background(), &checker.Credentials{Client: unhexStr(f[2]), RequestID: "r"},
-				unhexStr(f[3]), []byte("pass"), uint32(u64(f[4])), uint32(u64(f[5])))
+				unhexStr(f[3]), genPass, uint32(u64(f[4])), uint32(u64(f[5])))
 			c.fault = nil
 			if err != nil {
 				res = "err"
@@ -798,6 +807,29 @@ func dkgEngine(workdir string) {
 			} else {
 				res = fmt.Sprintf("shape:%d:%d", len(rs), len(sigs))
 			}
+		case "iattx":
+			// iattx <inst> <account> <att> <deadline ms> <stall ms>: an attestation whose state write stalls (slow disk) for
+			// <stall ms> while the client's deadline is <deadline ms>
+			in := c.insts[u64(f[1])]
+			dl, _ := strconv.Atoi(f[4])
+			stall, _ := strconv.Atoi(f[5])
+			var first int32
+			verifhook.SetHandler(func(name string, _ []byte) error {
+				if (name == "store.enter" || name == "batchstore.enter") && atomic.CompareAndSwapInt32(&first, 0, 1) {
+					time.Sleep(time.Duration(stall) * time.Millisecond) // only the first write stalls; later ones pass at once
+				}
+				return nil
+			})
+			ctx, cancel := context.WithTimeout(context.Background(), time.Duration(dl)*time.Millisecond)
+			r, sig := in.signer.SignBeaconAttestation(ctx, &checker.Credentials{Client: "client1", RequestID: "r"},
+				unhexStr(f[2]), nil, parseAtt(strings.Split(f[3], ",")))
+			cancel()
+			res = posStr(r, sig)
+			// leave the hook in place until the stalled write has had time to land, then remove it
+			go func() {
+				time.Sleep(time.Duration(stall+50) * time.Millisecond)
+				verifhook.SetHandler(nil)
+			}()
 		case "iatts2":
 			// iatts2 <inst> <account> <att> <account2> <att2>: a batch of two (the second entry belongs to another
 			// account); result "<state of the second>/<state[:signature] of the first>"
